@@ -36,6 +36,9 @@ type Search struct {
 	CutEdge     func(ifi *ssa.If, cond ssa.Value, branch bool) bool
 	PanicIsExit bool
 	Visited     int // instructions visited (for evidence)
+	NoInline    bool
+	Interest    []func(ins ssa.Instruction) bool // further predicates that make a helper worth following
+	OnVisit     func(ins ssa.Instruction)
 }
 
 type Witness struct {
@@ -121,6 +124,15 @@ func (f pfacts) key() string {
 	}
 	sort.Strings(ss)
 	return strings.Join(ss, ",")
+}
+
+func (f pfacts) has(v ssa.Value, kind byte, k int64) bool {
+	for _, x := range f {
+		if x.v == v && x.kind == kind && x.k == k {
+			return true
+		}
+	}
+	return false
 }
 
 func (f pfacts) with(n pfact) pfacts {
@@ -244,6 +256,9 @@ func (s *Search) evalBool(v ssa.Value, f pfacts) (val bool, known bool) {
 				if pf.k >= k {
 					return true, true
 				}
+				if pf.k == k-1 && f.has(x, '!', pf.k) { // x >= k-1 and x != k-1
+					return true, true
+				}
 			case 'L':
 				if pf.k <= k {
 					return false, true
@@ -261,6 +276,9 @@ func (s *Search) evalBool(v ssa.Value, f pfacts) (val bool, known bool) {
 			switch pf.kind {
 			case 'G':
 				if pf.k >= k {
+					return false, true
+				}
+				if pf.k == k-1 && f.has(x, '!', pf.k) {
 					return false, true
 				}
 			case 'L':
@@ -462,6 +480,31 @@ func learn(f pfacts, cond ssa.Value, branch bool) pfacts {
 	return f
 }
 
+type frame struct {
+	call    *ssa.Call
+	parent  *frame
+	retB    *ssa.BasicBlock
+	retI    int
+	retPred int
+	depth   int
+}
+
+func (f *frame) key() string {
+	if f == nil {
+		return ""
+	}
+	return fmt.Sprintf("%p>%s", f.call, f.parent.key())
+}
+
+func (f *frame) has(fn *ssa.Function) bool {
+	for ; f != nil; f = f.parent {
+		if f.call.Call.StaticCallee() == fn {
+			return true
+		}
+	}
+	return false
+}
+
 type sstate struct {
 	b     *ssa.BasicBlock
 	i     int
@@ -469,21 +512,75 @@ type sstate struct {
 	from  int // index into nodes of the parent (for the trail)
 	note  string
 	facts pfacts
+	stack *frame
+}
+
+const maxInlineDepth = 2
+
+// substParams: inside a virtually inlined callee, a parameter tested by a branch is replaced by
+// the argument of the call being followed.
+func substParams(cond ssa.Value, st *frame) ssa.Value {
+	if st == nil {
+		return cond
+	}
+	arg := func(v ssa.Value) ssa.Value {
+		p, ok := v.(*ssa.Parameter)
+		if !ok {
+			return v
+		}
+		for f := st; f != nil; f = f.parent {
+			callee := f.call.Call.StaticCallee()
+			if p.Parent() != callee {
+				continue
+			}
+			for i, q := range callee.Params {
+				if q == p && i < len(f.call.Call.Args) {
+					return f.call.Call.Args[i]
+				}
+			}
+		}
+		return v
+	}
+	switch x := cond.(type) {
+	case *ssa.Parameter:
+		return arg(x)
+	case *ssa.UnOp:
+		if x.Op == token.NOT {
+			if a := arg(x.X); a != x.X {
+				return &ssa.UnOp{Op: token.NOT, X: a}
+			}
+		}
+	case *ssa.BinOp:
+		switch x.Op {
+		case token.EQL, token.NEQ, token.LSS, token.LEQ, token.GTR, token.GEQ:
+			a, b := arg(x.X), arg(x.Y)
+			if a != x.X || b != x.Y {
+				return &ssa.BinOp{Op: x.Op, X: a, Y: b}
+			}
+		}
+	}
+	return cond
 }
 
 // Find searches for a path from any start to an instruction satisfying target (or, when
 // exitIsTarget, to a function exit) that does not pass through a Stop instruction or a cut edge.
 // It returns nil when no such path exists.
+//
+// Calls to module-local helper functions that contain an instruction the search cares about
+// (one that target, Stop, Interest or CutEdge would react to) are followed into the callee and
+// back ("virtual inlining", depth <= 2), so extracting a few statements into a helper does not
+// change any verdict.
 func (s *Search) Find(starts []Start, target func(ins ssa.Instruction) bool, exitIsTarget bool) *Witness {
 	type key struct {
 		b     *ssa.BasicBlock
 		pred  int
 		facts string
+		stack string
 	}
 	seen := map[key]bool{}
 	var nodes []sstate
 	for _, st := range starts {
-		nodes = append(nodes, sstate{st.B, st.I, st.Pred, -1, fmt.Sprintf("start b%d", st.B.Index), st.F})
+		nodes = append(nodes, sstate{st.B, st.I, st.Pred, -1, fmt.Sprintf("start b%d", st.B.Index), st.F, nil})
 	}
 	trail := func(n int) []string {
 		var out []string
@@ -498,45 +595,119 @@ func (s *Search) Find(starts []Start, target func(ins ssa.Instruction) bool, exi
 		}
 		return out
 	}
+	wants := map[*ssa.Function]bool{}
+	var wantsInline func(fn *ssa.Function, depth int) bool
+	wantsInline = func(fn *ssa.Function, depth int) bool {
+		if v, ok := wants[fn]; ok {
+			return v
+		}
+		wants[fn] = false
+		res := false
+		for _, b := range fn.Blocks {
+			for _, ins := range b.Instrs {
+				if res {
+					break
+				}
+				if _, isRet := ins.(*ssa.Return); isRet {
+					continue // a helper's return is not an exit of the analysed function
+				}
+				if target != nil && target(ins) {
+					res = true
+				}
+				if s.Stop != nil && s.Stop(ins) {
+					res = true
+				}
+				for _, in := range s.Interest {
+					if in(ins) {
+						res = true
+					}
+				}
+				if ifi, ok := ins.(*ssa.If); ok && s.CutEdge != nil {
+					if s.CutEdge(ifi, ifi.Cond, true) || s.CutEdge(ifi, ifi.Cond, false) {
+						res = true
+					}
+				}
+				if c, ok := ins.(*ssa.Call); ok && depth < maxInlineDepth {
+					if cal := c.Call.StaticCallee(); cal != nil && cal != fn && cal.Blocks != nil && cal.Pkg != nil && isModulePkg(cal.Pkg.Pkg) {
+						if wantsInline(cal, depth+1) {
+							res = true
+						}
+					}
+				}
+			}
+		}
+		wants[fn] = res
+		return res
+	}
 	for q := 0; q < len(nodes); q++ {
 		if len(nodes) > 400000 {
 			broken("path search exploded in %s", s.Fn.Name())
 		}
 		n := nodes[q]
 		if n.i == 0 {
-			k := key{n.b, n.pred, n.facts.key()}
+			k := key{n.b, n.pred, n.facts.key(), n.stack.key()}
 			if seen[k] {
 				continue
 			}
 			seen[k] = true
 		}
 		facts := n.facts
+	instrs:
 		for i := n.i; i < len(n.b.Instrs); i++ {
 			ins := n.b.Instrs[i]
 			s.Visited++
-			if target != nil && target(ins) {
+			_, isRet := ins.(*ssa.Return)
+			innerRet := isRet && n.stack != nil
+			if s.OnVisit != nil && !innerRet {
+				s.OnVisit(ins)
+			}
+			if target != nil && !innerRet && target(ins) {
 				return &Witness{Target: ins, Trail: trail(q)}
 			}
-			if s.Stop != nil && s.Stop(ins) {
+			if s.Stop != nil && !innerRet && s.Stop(ins) {
 				break
 			}
 			if v, ok := ins.(ssa.Value); ok && len(facts) > 0 {
 				facts = facts.without(v) // redefinition (next loop iteration): forget what was known
 			}
 			switch t := ins.(type) {
+			case *ssa.Call:
+				if s.NoInline {
+					break
+				}
+				cal := t.Call.StaticCallee()
+				depth := 0
+				if n.stack != nil {
+					depth = n.stack.depth
+				}
+				if cal == nil || cal.Blocks == nil || cal.Pkg == nil || !isModulePkg(cal.Pkg.Pkg) || depth >= maxInlineDepth || cal == s.Fn || n.stack.has(cal) {
+					break
+				}
+				if !wantsInline(cal, depth+1) {
+					break
+				}
+				fr := &frame{call: t, parent: n.stack, retB: n.b, retI: i + 1, retPred: n.pred, depth: depth + 1}
+				nodes = append(nodes, sstate{cal.Blocks[0], 0, -1, q, "into " + cal.Name(), facts, fr})
+				break instrs
 			case *ssa.Return:
+				if n.stack != nil {
+					fr := n.stack
+					nodes = append(nodes, sstate{fr.retB, fr.retI, fr.retPred, q, "back from " + fr.call.Call.StaticCallee().Name(), facts, fr.parent})
+					break instrs
+				}
 				if exitIsTarget {
 					return &Witness{Exit: ins, Trail: trail(q)}
 				}
 			case *ssa.Panic:
-				if exitIsTarget && s.PanicIsExit {
+				if exitIsTarget && s.PanicIsExit && n.stack == nil {
 					return &Witness{Exit: ins, Trail: trail(q)}
 				}
 			case *ssa.Jump:
 				succ := n.b.Succs[0]
-				nodes = append(nodes, sstate{succ, 0, predIndex(succ, n.b, 0), q, "", facts})
+				nodes = append(nodes, sstate{succ, 0, predIndex(succ, n.b, 0), q, "", facts, n.stack})
 			case *ssa.If:
 				cond := substPhiOperands(resolvePhi(t.Cond, n.b, n.pred), n.b, n.pred)
+				cond = substParams(cond, n.stack)
 				val, known := s.evalBool(cond, facts)
 				for k, succ := range n.b.Succs {
 					branch := k == 0
@@ -547,7 +718,7 @@ func (s *Search) Find(starts []Start, target func(ins ssa.Instruction) bool, exi
 						continue
 					}
 					nodes = append(nodes, sstate{succ, 0, predIndex(succ, n.b, k), q,
-						fmt.Sprintf("b%d:%s=%v", n.b.Index, shortVal(cond), branch), learn(facts, cond, branch)})
+						fmt.Sprintf("b%d:%s=%v", n.b.Index, shortVal(cond), branch), learn(facts, cond, branch), n.stack})
 				}
 			}
 		}
